@@ -271,7 +271,8 @@ theorem finish_sound (r : RState) (opt : Option EOpt) (tsig : Option Tsig) (pad 
     | none => simp at h5; subst h5; exact ⟨hrel_s, hrel_below, rfl⟩
     | some o =>
       simp only at h5
-      unfold RState.addOpt at h5
+      replace h5 := addOpt_core_of_ok h5
+      unfold RState.addOptCore at h5
       split at h5
       · have s5 := addRRset_sound { r.releaseReserved with wasPadded := true } _ _ r5
           (optRRset_namesOk _ _) hrel_below hrel_s h5
